@@ -278,3 +278,71 @@ def double_pct(parts, everywhere):
 
 def has_pct(parts):
     return any(p[0] in ('lit', 'expr') and '%' in p[1] for p in parts)
+
+
+# ---------------------------------------------------------------------------------------------------
+# adapted-text-as-source chains (history property): statement B whose SOURCE is statement A's ADAPTED text
+# ---------------------------------------------------------------------------------------------------
+def adapted_as_source(parts, style):
+    """parts of the statement whose source text is exactly the text the reference adapter produces for `parts`
+    under `style` (`$$$$` -> `$$`, `$x` -> the placeholder written literally, `%` doubled where the adapter doubles
+    it); None when that text is not a valid source (a lone `$` would remain)"""
+    from vlib import c30_ref as R
+    has_expr = any(p[0] == 'expr' for p in parts)
+    double = has_expr and style in R.PERCENT_STYLES
+    out = []
+    n = 0
+    i = 0
+    while i < len(parts):
+        p = parts[i]
+        if p[0] == 'lit':
+            out.append(['lit', p[1].replace('%', '%%') if double else p[1]])
+            i += 1
+        elif p[0] == 'expr':
+            n += 1
+            out.append(['lit', R.PLACEHOLDER[style](n)])
+            i += 1
+        else:
+            j = i
+            while j < len(parts) and parts[j][0] == 'dd':
+                j += 1
+            if (j - i) % 2:
+                return None
+            out.extend([['dd']] * ((j - i) // 2))
+            i = j
+    if R.assemble(out) != R.ref_adapt(parts, style)[0]:
+        return None
+    return out
+
+
+@st.composite
+def chain_texts(draw, scope):
+    """a text that CHANGES when adapted (has `$$` groups of even length and/or `$`-expressions) and whose adapted text
+    is again a valid source"""
+    parts = []
+    open_expr = False
+    changed = False
+    for _ in range(draw(st.integers(1, 5))):
+        kind = draw(st.sampled_from(['lit', 'lit', 'expr', 'ddgroup', 'ddgroup']))
+        if kind == 'lit':
+            t = draw(lits)
+            if open_expr:
+                t = draw(safe_follow()) + t
+            if not t:
+                continue
+            parts.append(['lit', t])
+            open_expr = False
+        elif kind == 'ddgroup':
+            if parts and parts[-1][0] == 'dd':
+                parts.append(['lit', draw(st.sampled_from([' ', "'", 'x', '%', ',']))])
+            parts.extend([['dd']] * draw(st.sampled_from([2, 2, 4])))
+            open_expr = False
+            changed = True
+        else:
+            e, _ = draw(exprs(scope, pct=False))
+            parts.append(e)
+            open_expr = not e[2]
+            changed = True
+    if not changed:
+        parts.extend([['dd'], ['dd']])
+    return parts
